@@ -31,6 +31,8 @@ ASSUMPTIONS = [
 ]
 FLOORS = {"quick": {"accepted_compared": 20000},
           "thorough": {"accepted_compared": 600000}}
+HOOK_FLOORS = {"quick": {"reloaded_after_poisoning_result": 5000},
+               "thorough": {"reloaded_after_poisoning_result": 100000}}
 N_MODELS = {"quick": 1500, "thorough": 50000}
 TEXTS = {"quick": 20, "thorough": 36}
 
@@ -115,6 +117,24 @@ def judge(ctx, p):
         res.violate("attributes-differ-from-declared", p.case(), [],
                     [[list(map(str, a)), b] for a, b in extra],
                     detail="text=%r" % p.text)
+        return
+    # the application changes every list / mapping of the result in place,
+    # then reads the same text again: the second tree must be the schema's
+    # again (converted values or defaults remembered by reference show here)
+    if outcome.poison(config):
+        res.hook("reloaded_after_poisoning_result")
+        again = outcome.load_text(p.schema, p.text)
+        d = (("", "accepted", again[:2]) if again[0] != "ok"
+             else first_diff(exp[1], again[1]))
+        if d:
+            res.violate("value-tree-differs-on-reload", p.case(),
+                        {"at": d[0], "expected": d[1]},
+                        {"at": d[0], "observed": d[2]},
+                        detail="after the first result was modified in "
+                        "place: text=%r at %s expected %r observed %r"
+                        % (p.text, d[0], d[1], d[2]),
+                        vsig="reload|%s|%s" % (d[0].split("/")[-1][:12],
+                                               str(d[1])[:20]))
 
 
 def fault_plan(rng):
